@@ -15,13 +15,35 @@ func withOnly(rs []hrun, only []string, panics bool) []hrun {
 	return out
 }
 
+const nContexts = 21
+
 func ctxRuns(thorough bool) []hrun {
 	var r []hrun
 	for df := 0; df <= 1; df++ {
-		for c := 0; c < 19; c++ {
+		for c := 0; c < nContexts; c++ {
 			r = append(r, hrun{Harness: "ParseCtx", Params: P("CTX", c, "S", 1, "DF", df)})
 			if (df == 0 || thorough) && c != 2 { // context 2 has two holes: S=2 would be four free slots
 				r = append(r, hrun{Harness: "ParseCtx", Params: P("CTX", c, "S", 2, "DF", df)})
+			}
+		}
+	}
+	return r
+}
+
+func deriveRuns(thorough bool) []hrun {
+	var r []hrun
+	for df := 0; df <= 1; df++ {
+		maxK := 2
+		if thorough || df == 0 {
+			maxK = 3
+		}
+		for k := 1; k <= maxK; k++ {
+			r = append(r, hrun{Harness: "DeriveTokens", Params: P("K", k, "DF", df)})
+		}
+		for c := 0; c < nContexts; c++ {
+			r = append(r, hrun{Harness: "DeriveCtx", Params: P("CTX", c, "S", 1, "DF", df)})
+			if (df == 0 || thorough) && c != 2 {
+				r = append(r, hrun{Harness: "DeriveCtx", Params: P("CTX", c, "S", 2, "DF", df)})
 			}
 		}
 	}
@@ -76,6 +98,12 @@ var props = map[string]propCfg{
 		},
 		Bounds:  "all expression trees of depth <= 1 over 18 leaf forms and of depth <= 2 over 3 leaf forms (quick; thorough adds depth 2 over 8 leaf forms), 7 operators incl. default and explicit powers/distances, leaves with symbolic bytes (field names, 2-byte strings, 1-2 digit integers); minimal and fully redundant parenthesisation, wide spacing",
 		Outside: "deeper trees; literal contents outside the hole classes (covered by C06/C08/C01 tiers)",
+	},
+	"C06": {
+		Quick:    deriveRuns(false),
+		Thorough: deriveRuns(true),
+		Bounds:   "all token sequences of <= 2 tokens (quick, both default-field settings; 3 tokens without default field) / <= 3 tokens (thorough) over 20 token shapes with symbolic literal bytes, and 1-2 free token slots inside 21 bracket/operator contexts; the derivation oracle knows every token and its typed value from the generator, not from the lexer under test",
+		Outside:  "longer sequences; literal contents outside the narrow shape classes (typed values of arbitrary words are covered by C08 and the K=1 wide slot of C01)",
 	},
 	"C07": {
 		Quick:    []hrun{{Harness: "TreeJuxtapose", Params: P("D", 2, "LEAVES", 0), InfoOnly: []string{"juxt-accepted"}}, {Harness: "TreeJuxtapose", Params: P("D", 1, "LEAVES", 1), InfoOnly: []string{"juxt-accepted"}}},
